@@ -13,5 +13,5 @@ Vec(sc) == LET f == Final(InitSt(sc)) IN
                  closeFinal |-> f.closeCount, cweFinal |-> f.cweCount, cweErr |-> f.cweErr,
                  cerrW |-> f.cerrW, doOK |-> f.doOK, attempts |-> f.attempts ] ]
 
-ASSUME ndJsonSerialize("vectors.ndjson", SetToSeq({ Vec(sc) : sc \in ScenarioSpace(MaxL) }))
+ASSUME ndJsonSerialize("vectors.ndjson", <<[ entries |-> ClientEntries ]>> \o SetToSeq({ Vec(sc) : sc \in ScenarioSpace(MaxL) }))
 =============================================================================
